@@ -112,9 +112,39 @@ pub fn run(ctx: &Ctx) -> i32 {
         if ti % 131 == (ctx.seed as usize % 131) { acc.sample(json!({"tree": m.show(), "distinct_digests": m.distinct_digests().len(), "menu": "all subsets of digests + one absent x {removing,revealing} x {Elide,Encrypt,Compress}"})) }
         acc
     }).reduce(Acc::new, Acc::merge);
+    // wide / deep shapes and count / depth sweeps: single, pair and large target sets from both ends of the digest list
+    let wide = families::wide_all(th);
+    let accw = wide.par_iter().with_max_len(1).map(|(wn, m)| {
+        let mut acc = Acc::new();
+        let Ok(e) = catch(|| bind::build(m, 0)) else { return acc };
+        acc.inc("wide_shapes");
+        let orig = bind::observe(&e);
+        let ds = m.distinct_digests();
+        let picks: Vec<usize> = (0..ds.len()).filter(|i| *i < 6 || i % 61 == 0 || *i + 2 >= ds.len()).collect();
+        let mut sets: Vec<Vec<D>> = vec![vec![], vec![families::absent_digest()]];
+        sets.extend(picks.iter().map(|i| vec![ds[*i]]));
+        for w in picks.windows(2) { sets.push(vec![ds[w[0]], ds[w[1]]]) }
+        for k in [16usize, 17, 33, 65] { if ds.len() > k { sets.push(ds[..k].to_vec()); sets.push(ds[ds.len() - k..].to_vec()) } }
+        sets.push(ds.clone());
+        for t in sets { let tset = bind::dset(&t);
+            for revealing in [false, true] { for (kind, action) in actions() {
+                acc.inc("obscurings_first_pass");
+                let cid = || format!("wide/{wn}/{}targets:{}/rev{}/{kind:?}", t.len(), t.iter().take(3).map(|d| hex::encode(&d[..3])).collect::<Vec<_>>().join("+"), revealing as u8);
+                match catch(|| e.elide_set_with_action(&tset, revealing, &action)) {
+                    Ok(r) => { let ro = bind::observe(&r);
+                        if let Some((path, what)) = same_digests(&orig, &ro, "") { acc.viol(format!("C02|wide|{kind:?}|{}|{}", if revealing { "revealing" } else { "removing" }, what), format!("digest changed at {path}"), cid(), json!({"shape": wn, "targets": t.len()})) }
+                        if ro != orig { acc.nontrivial(&(wn.clone(), t.len(), t.first().cloned(), revealing, kind)); acc.inc("results_changed_something"); } }
+                    Err(p) => { if p.msg.contains("assertion failed") || p.msg.contains("assertion `left") { acc.viol(format!("C02|wide|{kind:?}|digest-assert|{}", p.loc), format!("digest-preservation assert fired: {}", p.msg), cid(), json!({"shape": wn})) } else { acc.inc("panics_no_result_counted_under_C16") } }
+                }
+            } }
+        }
+        whole_ops(&mut acc, &e, crate::refmodel::sha256::sha256(&m.digest()), &|| format!("wide/{wn}"));
+        acc
+    }).reduce(Acc::new, Acc::merge);
+    let acc = acc.merge(accw);
     let evals = acc.get("obscurings_first_pass") + acc.get("obscurings_second_pass") + acc.get("whole_envelope_ops");
     let cov = json!({"evaluations": evals,
-        "rule": "(all subsets for envelopes with at most 10 distinct digests - every tree of the weight-bounded families; for the hand-built decode-only shapes with more, the empty / singleton / pair / full target sets) case = (envelope, target subset incl. one absent digest, mode, action); non-trivial = the result differs from the input (something was obscured); distinct by (root digest, subset, mode, action)",
+        "rule": "(wide / deep shapes and every assertion count 1..72 and depth 1..40: single / pair / 16..65-element / full target sets) (all subsets for envelopes with at most 10 distinct digests - every tree of the weight-bounded families; for the hand-built decode-only shapes with more, the empty / singleton / pair / full target sets) case = (envelope, target subset incl. one absent digest, mode, action); non-trivial = the result differs from the input (something was obscured); distinct by (root digest, subset, mode, action)",
         "exhaustive": true,
         "bounds": {"first_pass_tree_weight": w1, "second_pass_tree_weight": w2, "decode_only_shapes": families::decode_only().len()}});
     finish(ctx, acc, "exploration", cov, vec!["trees heavier than the bound and atoms outside the alphabet are not covered".into(),
